@@ -22,6 +22,7 @@ class Gen(object):
         self.regs = {}      # name -> (size, signed)
         self.names = r.sample(REGNAMES, 5)
         self.bad_done = False
+        self.mem = r.random() < 0.2      # scripts with memory leaves (judged on widths only)
 
     # -- leaves ---------------------------------------------------------------------------
     def const_value(self, w):
@@ -57,8 +58,28 @@ class Gen(object):
             return self.r.random() < 0.4
         return False
 
+    MEMW = (8, 16, 32, 64, 128)
+
+    def mem_leaf(self, w):
+        """["mem", name, size, disp, endian, basesize]: a memory expression at reg+disp; the pointer register is one of the
+        script's registers (valuations give it a value, memory itself stays symbolic)."""
+        r = self.r
+        ptrs = [n for n, (s, _) in self.regs.items() if s in (32, 64) and n.startswith("p_")]
+        if ptrs and (len(self.regs) >= 5 or r.random() < 0.6):
+            n = r.choice(ptrs)
+        elif len(self.regs) < 5:
+            n = "p_" + self.names[len(self.regs)]
+            self.regs[n] = (r.choice([32, 64]), False)
+        else:
+            return None
+        return [["mem", n, w, r.choice([0, 0, 0, 4, 1, -8, 100]), r.choice([1, 1, -1]), self.regs[n][0]]]
+
     def leaf(self, w):
         r = self.r
+        if self.mem and w in self.MEMW and r.random() < 0.25:
+            m = self.mem_leaf(w)
+            if m is not None:
+                return m
         if r.random() < 0.55:
             cands = [n for n, (s, _) in self.regs.items() if s == w]
             if len(self.regs) < 5 and (not cands or r.random() < 0.4):
@@ -134,7 +155,27 @@ class Gen(object):
             ch += ["cmp"] * 8 + ["bit", "eqbit", "eqbit", "notcmp", "notcmp"]
         if w % 2 == 0 and w // 2 >= 1:
             ch += ["pow"]
+        ch += ["setpart", "setpart"] if w >= 2 else []
+        if self.mem:
+            ch += ["memslice"] * 4
         c = r.choice(ch)
+        if c == "memslice":
+            # slice of a memory expression: aligned / unaligned start, length a multiple of 8 or not
+            big = [x for x in self.MEMW if x > w]
+            m = self.mem_leaf(r.choice(big)) if big else None
+            if m is None:
+                return self.leaf(w)
+            w2 = m[0][2]
+            k = r.random()
+            if k < 0.3:
+                lo = 8 * r.randrange((w2 - w) // 8 + 1)
+            elif k < 0.5:
+                lo = w2 - w
+            else:
+                lo = r.randint(0, w2 - w)
+            return m + [["slice", lo, lo + w]]
+        if c == "setpart":
+            return self.setpart(w, d)
         if c == "arith":
             return g(w) + g(w) + [[r.choice(["add", "add", "sub", "sub", "mul"])]]
         if c == "logic":
@@ -213,6 +254,46 @@ class Gen(object):
         if c == "simp":
             return g(w) + [[r.choice(["simp", "simp", "simpb"])]]
         return self.leaf(w)
+
+    def setpart(self, w, d):
+        """a composition of width w, then one or two writes `c[lo:hi] = v` at ranges that start strictly inside a
+        part and reach into the next one(s), cover several parts, are aligned on part boundaries, lie inside one
+        part, or are arbitrary."""
+        r = self.r
+        n = r.randint(2, min(4, w))
+        cuts = sorted(r.sample(range(1, w), n - 1))
+        bounds = [0] + cuts + [w]
+        out = []
+        for a, b in zip(bounds, bounds[1:]):
+            out += self.gen(b - a, min(d - 1, 2))
+        out.append([r.choice(["rawcomp", "rawcomp", "rawcomp", "compose"]), n])
+        for _ in range(1 if r.random() < 0.7 else 2):
+            k = r.random()
+            i = r.randrange(n)
+            lo = hi = None
+            if k < 0.45 and i + 1 < n and bounds[i + 1] - bounds[i] >= 2:
+                # straddle: start strictly inside part i, end inside (or at the end of) a following part
+                off = r.randint(1, bounds[i + 1] - bounds[i] - 1)
+                lo = bounds[i] + off
+                j = i + 1 if (r.random() < 0.7 or i + 2 >= n) else r.randint(i + 1, n - 1)
+                reach_max = bounds[j + 1] - bounds[i + 1]
+                reach = r.randint(1, reach_max)
+                if r.random() < 0.5:
+                    reach = min(reach, off)        # reaches into the next part by no more than the start offset
+                hi = bounds[i + 1] + reach
+            elif k < 0.6:
+                a, b = sorted(r.sample(range(n + 1), 2))
+                lo, hi = bounds[a], bounds[b]
+            elif k < 0.7 and bounds[i + 1] - bounds[i] >= 1:
+                lo = r.randint(bounds[i], bounds[i + 1] - 1)
+                hi = r.randint(lo + 1, bounds[i + 1])
+            elif k < 0.75:
+                lo, hi = 0, w
+            if lo is None:
+                lo = r.randrange(w)
+                hi = r.randint(lo + 1, w)
+            out += self.gen(hi - lo, min(d - 1, 2)) + [["setpart", lo, hi]]
+        return out
 
     RAWABLE = ("add", "sub", "mul", "pow", "div", "mod", "and", "or", "xor", "shl", "shr", "asr", "eq", "ne", "lt", "le",
                "gt", "ge", "ltu", "geu", "ror", "rol")
